@@ -1,6 +1,6 @@
 (* Interp.v — API programs: operations, their meaning on worlds, wire format. *)
 From Coq Require Import String Ascii List Bool Arith ZArith.
-From Prov Require Import Str Sexp Tables Nsm Scope Values Record World.
+From Prov Require Import Str Sexp Tables Nsm Scope Values Record World Jtree Json.
 Import ListNotations.
 Open Scope string_scope.
 
@@ -31,6 +31,8 @@ Inductive op : Type :=
 | OGetRecords (c : cref) (cls : option string)
 | OEq (a b : cref)
 | OEqRec (a b : rref)
+| OExportJson (d : nat)
+| OLoadJson (t : jv)
 | OObserveAll.
 
 (* result of a step *)
@@ -493,6 +495,17 @@ Definition step (w : world) (o : op) : world * res :=
       | Some x, Some y => (w, RBool (rec_eqb x y))
       | _, _ => (w, RBad)
       end
+  | OExportJson d =>
+      match get_doc w d with
+      | Some dd => (w, RDump (sx_jv (encode_doc dd)))
+      | None => (w, RBad)
+      end
+  | OLoadJson t =>
+      match decode_doc ft t with
+      | OK nd => (mkW (wdocs w ++ [nd])%list ft, RHandle (length (wdocs w)))
+      | Raise e => (w, RRaise e)
+      | OutOfDomain => (w, ROOD)
+      end
   | OObserveAll => (w, RDump (sx_world w))
   end.
 
@@ -615,6 +628,8 @@ Definition px_op (x : sexp) : option op :=
   | L [A "EqRec"; a; b] =>
       match px_rref a, px_rref b with
       | Some a', Some b' => Some (OEqRec a' b') | _, _ => None end
+  | L [A "ExportJson"; d] => option_map OExportJson (px_nat d)
+  | L [A "LoadJson"; t] => option_map OLoadJson (px_jv 64 t)
   | L [A "ObserveAll"] => Some OObserveAll
   | _ => None
   end.
